@@ -42,12 +42,12 @@ class Suite:
         self.results.append({'name': name, 'tags': tags, 'verdict': 'refused', 'detail': why})
 
     def implies(self, pc, cond, extra=()):
-        s = z3.Solver(); s.set('timeout', 30000); s.add(pc, *extra, z3.Not(cond))
-        return s.check() == z3.unsat
+        import zutil
+        return zutil.check(pc, *extra, z3.Not(cond)) == z3.unsat
 
     def sat(self, *f):
-        s = z3.Solver(); s.set('timeout', 30000); s.add(*f)
-        return s.check() == z3.sat
+        import zutil
+        return zutil.check(*f) == z3.sat
 
     # ------------------------------------------------------------------ message representative (shared by sign / verify)
     def mu_args(self, E, path, keyref, msgname):
